@@ -118,8 +118,8 @@ def real_blocks(src):
 
 # ---- fault catalogue: (name, lines to insert, index of the offending line among them, expected category)
 # categories: 'syntax' = SyntaxError; otherwise the ErrorCode name of CompileError
-DECLS = ['TYPE zrec', '  za AS INTEGER', '  zb AS STRING', 'END TYPE', 'DIM SHARED zr AS zrec', 'DIM SHARED zarr%(3)', 'DIM SHARED zq%, zs$',
-         'zq% = 1: zs$ = "s"', 'DIM SHARED zdyn%(zq%, 1 TO zq% + 1)']
+DECLS = ['TYPE zrec', '  za AS INTEGER', '  zb AS STRING', '  zc AS LONG', 'END TYPE', 'DIM SHARED zr AS zrec', 'DIM SHARED zarr%(3)', 'DIM SHARED zq%, zs$',
+         'zq% = 1: zs$ = "s"', 'DIM SHARED zdyn%(zq%, 1 TO zq% + 1)', 'DIM SHARED zla&(2), zra(2) AS zrec, zl&']
 FAULTS = [
     ('assign string to integer', ['zq% = "s"'], 0, 'TYPE_MISMATCH'),
     ('assign number to string', ['zs$ = 5'], 0, 'TYPE_MISMATCH'),
@@ -193,8 +193,24 @@ FAULTS = [
     ('INPUT into a function', ['INPUT zfun%(1)'], 0, 'DUPLICATE_DEFINITION'),
     ('non-constant CONST', ['CONST zc3 = zq%'], 0, 'INVALID_CONSTANT'),
     ('non-constant CONST (function)', ['CONST zc4 = RND'], 0, 'INVALID_CONSTANT'),
+    # an lvalue argument is passed by reference: its type must be the parameter's (a variable, an array element, a field,
+    # a field of an array element; SUB and FUNCTION)
+    ('LONG variable to INTEGER parameter', ['CALL zsub(zl&)'], 0, 'TYPE_MISMATCH'),
+    ('LONG array element to INTEGER parameter', ['CALL zsub(zla&(1))'], 0, 'TYPE_MISMATCH'),
+    ('LONG field to INTEGER parameter', ['CALL zsub(zr.zc)'], 0, 'TYPE_MISMATCH'),
+    ('LONG field of an array element to INTEGER parameter', ['CALL zsub(zra(2).zc)'], 0, 'TYPE_MISMATCH'),
+    ('STRING field of an array element to INTEGER parameter', ['CALL zsub(zra(2).zb)'], 0, 'TYPE_MISMATCH'),
+    ('LONG array element to INTEGER parameter of a FUNCTION', ['zq% = zfun%(zla&(1))'], 0, 'TYPE_MISMATCH'),
+    ('LONG variable to INTEGER parameter of a FUNCTION', ['zq% = zfun%(zl&)'], 0, 'TYPE_MISMATCH'),
+    ('DIM of a constant name', ['CONST zc6 = 1', 'DIM zc6'], 1, 'DUPLICATE_DEFINITION'),
+    ('wrong argument type of a builtin with several forms', ['PRINT INSTR("abc", 5)'], 0, 'TYPE_MISMATCH'),
+    ('block statement after THEN on an ELSEIF line', ['IF zq% THEN', 'ELSEIF zq% THEN NEXT', 'END IF'], 1, 'syntax'),
+    ('string constant with an untyped name as a number', ['CONST zc7 = "x"', 'zq% = zc7'], 1, 'TYPE_MISMATCH'),
 ]
-NEUTRAL = ['zdyn%(1, 1) = zq%', 'zq% = zq% + 1', 'PRINT zs$;', 'zarr%(1) = zq%', 'zr.za = 2', 'CALL zsub(zq%)', 'IF zq% THEN zq% = 0']
+NEUTRAL = ['zdyn%(1, 1) = zq%', 'zq% = zq% + 1', 'PRINT zs$;', 'zarr%(1) = zq%', 'zr.za = 2', 'CALL zsub(zq%)', 'IF zq% THEN zq% = 0',
+           # arguments that are expressions are passed by value and converted: accepted
+           'CALL zsub(zfun%(1))', 'CALL zsub((zl&))', 'CALL zsub(zl& + 0)', 'CALL zsub(+zq%)', 'CALL zsub(zarr%(1))', 'CALL zsub(zra(1).za)',
+           'zq% = zfun%((zla&(1)))', 'zq% = zfun%(zfun%(zq%))']
 SUBDEF = ['SUB zsub (p%)', 'END SUB', 'FUNCTION zfun% (p%)', '  zfun% = p%', 'END FUNCTION']
 UNCLOSED = {'unclosed FOR', 'unclosed WHILE', 'unclosed block IF', 'unclosed SELECT'}
 MISPLACED_TERMINATOR = {'misplaced NEXT', 'misplaced WEND', 'misplaced LOOP', 'misplaced END IF', 'misplaced END SELECT', 'misplaced ELSE',
